@@ -200,6 +200,8 @@ def gen_scenario(rng, kind, variant=None):
             v1, v2 = rng.choice([("1.0", "1.0-r0"), ("1.0-r0", "1.0"), ("2-r0", "2")])
         sc["variant"] = variant
     old, new = f"{name}-{v1}", f"{name}-{v2}"
+    if kind == "breplace" and variant == "same":
+        sc["same_second"] = True
     if kind in ("vinstall", "vreplace", "binstall", "breplace"):
         sc["pf"] = new
         sc["new_meta"] = gen_meta(rng, new)
@@ -215,7 +217,13 @@ def gen_scenario(rng, kind, variant=None):
                 extra["sub/x"] = "x"
             if rng.random() < 0.3:
                 extra["sub/deep/y"] = ""
-        sc["pre"].append({"cat": cat, "pf": old, "meta": gen_meta(rng, old), "extra": extra})
+        ometa = gen_meta(rng, old)
+        if sc.get("same_second"):
+            # old and new differ in keys the Packages index stores
+            ometa["DESCRIPTION"] = "OLD build of " + old
+            ometa["KEYWORDS"] = "~old"
+            ometa["SLOT"] = "9"
+        sc["pre"].append({"cat": cat, "pf": old, "meta": ometa, "extra": extra})
     # neighbours (few metadata files each): another version of the same package, another
     # package, another category
     def small(pf):
@@ -280,6 +288,13 @@ class World:
             write(os.path.join(d, "SLOT"), "stale-stale-stale\n")
             write(os.path.join(d, "LEFTOVER"), "zz")
         settle(self.tmpl)
+        if not self.is_vdb and sc["pre"]:
+            # the Packages index the repository wrote itself, consistent with the settled tarballs
+            bt = binrepo.tree(self.loc_t)
+            for p in bt:
+                bt._get_metadata(p, force=True)
+            bt.cache.commit(force=True)
+            settle(self.tmpl)
         self.n = 0
 
     def fresh(self):
@@ -404,7 +419,7 @@ def bin_view(loc):
             data = f.read()
         out.append([pkg.category, pf, data])
         x = Xpak(path)
-        for attr, key in (("description", "DESCRIPTION"), ("eapi", "EAPI")):
+        for attr, key in (("description", "DESCRIPTION"), ("eapi", "EAPI"), ("fullslot", "SLOT")):
             got = str(getattr(pkg, attr))
             want = x.get(key, b"")
             want = want.decode() if isinstance(want, bytes) else want
@@ -549,6 +564,14 @@ def run_scenario(chk, work, sc, max_points=None, keep_all=False):
     kinds = {"InvalidCPV": "InvalidCPV"}
 
     def observe(top):
+        if sc.get("same_second"):
+            # both builds were written within the same second: the tarball just renamed into place
+            # carries the same integer mtime as the one the Packages index was written for
+            for d, _dn, fn in os.walk(os.path.join(top, "r")):
+                for nm in fn:
+                    fp = os.path.join(d, nm)
+                    if nm.endswith(".tbz2") and not nm.startswith(".tmp.") and int(os.stat(fp).st_mtime) != OLD_T:
+                        os.utime(fp, (OLD_T, OLD_T))
         r = impl_call(lambda: view_of(os.path.join(top, "r")), kinds=kinds)
         return (r, []) if isinstance(r, Err) else r
 
@@ -640,9 +663,9 @@ def run_scenario(chk, work, sc, max_points=None, keep_all=False):
         if not r.crashed or [raw_key(c) for c in r.trace[:k]] != [raw_key(c) for c in ref.trace[:k]]:
             raise Broken(f"run with a crash before call {k} diverged from the complete run "
                          f"(crashed={r.crashed}, exc={r.exc!r})")
-        views[k] = observe(top)
         if k in want_snap and k <= cache_from:
             snaps[k] = fsx.snapshot(top)
+        views[k] = observe(top)
         shutil.rmtree(top, ignore_errors=True)
     return {"sc": sc, "m": m, "ops": ops, "idx": idx, "views": views, "snaps": snaps, "n": n,
             "trace": [repr(c) for c in ref.trace]}
@@ -689,7 +712,8 @@ def judge(chk, res):
     bad = []
     for k, (v, stale) in sorted(res["views"].items()):
         if stale:
-            bad.append({"what": "metadata read through the repository differs from the listed tarball's xpak",
+            bad.append({"what": "metadata read through the repository (Packages index) differs from the listed "
+                                "tarball's xpak: the fresh view mixes the old and the new package",
                         "scenario": sc, "crash_before_call": k, "stale": stale})
         if v == v0 or v == vn:
             continue
@@ -769,7 +793,7 @@ def main(chk: Check):
             try:
                 # a binpkg replace under another file name: every call is a crash point also in quick
                 # (but for the Packages-cache data writes after the commit, which are sampled)
-                other = sc["kind"] == "breplace" and sc.get("old") != sc.get("pf")
+                other = sc["kind"] == "breplace" and (sc.get("old") != sc.get("pf") or sc.get("same_second"))
                 res = run_scenario(chk, wdir, sc, max_points=None if chk.thorough else 6, keep_all=other)
             except Broken as e:
                 chk.violation("correspondence", {"what": str(e), "scenario": sc}, no_input=True)
